@@ -85,7 +85,10 @@ def main():
     cov["notes"] = out.notes
     cov["known_findings_reproduced"] = nknown
     wall = time.time() - t0
-    write_evidence(prop, tier, seed, cov, list(getattr(mod, "ASSUMPTIONS", [])), wall, nfresh)
+    if replay is None:
+        write_evidence(prop, tier, seed, cov, list(getattr(mod, "ASSUMPTIONS", [])), wall, nfresh)
+    else:
+        print("(replay of one case: the evidence file of the registered check is left as it is)")
     print("%s %s seed=%d: %s in %.1fs (theorems %d/%d, evaluations %s)" % (prop, tier, seed, "OK" if rc == 0 else "VIOLATION", wall,
           cov["discharged"], cov["obligations"], cov.get("evaluations")))
     sys.exit(rc)
